@@ -53,7 +53,7 @@ theorem WOk.frame {X : Nat → Prop} {s s' : State} {wk : Worker} (h : WOk s wk)
     exact ⟨e2 ▸ c, e3 ▸ d⟩
 
 theorem WFrame.refl (X : Nat → Prop) (s : State) : WFrame X s s :=
-  ⟨Nat.le_refl _, fun _ sq' h p hp => ⟨sq', h, hp⟩, fun _ t' _ _ h => ⟨t', h, rfl, rfl⟩⟩
+  ⟨Nat.le_refl _, fun _ sq' h _ hp => ⟨sq', h, hp⟩, fun _ t' _ _ h => ⟨t', h, rfl, rfl⟩⟩
 
 theorem WFrame.of_eq {X : Nat → Prop} {s s' : State} (h1 : s'.nextTask = s.nextTask) (h2 : s'.scqs = s.scqs)
     (h3 : s'.tasks = s.tasks) : WFrame X s s' := by
